@@ -76,6 +76,26 @@
 (* the routing entry and ignores a storage error (RouteFail).  Cleaning the routing entry first   *)
 (* and returning on its error (named variant DevRouteFirst) leaves the tunnel registered.         *)
 (*                                                                                                *)
+(* Ways the target end gets attached (Attach(k)): "local" = SetTargetConnection called directly   *)
+(* (what the driver did so far), "pkt" = the target's tunnel connection comes through the packet  *)
+(* path (Handshake with connection_type tunnel registers it in the ClientRegistry, TunnelOpen ->  *)
+(* handleExistingBridge unregisters it again and attaches it), "xnode" = the target sits on       *)
+(* another node: CrossNodeListener.handleConnection reads the TargetReady frame from a TCP        *)
+(* connection and runBridgeForward then splices that connection and the source with two io.Copy   *)
+(* loops (no limiter; a finished direction half-closes its destination - seenEOF -, the bridge is *)
+(* closed when both are done; an end that sees EOF closes: React).                                *)
+(*   Hold = the tunnel lives longer than the heartbeat timeout.  A tunnel leg that is still       *)
+(* registered as a control connection (named variant DevLegRegistered) never heartbeats: the      *)
+(* stale-connection sweeper closes its stream - the tunnel ends with both ends open.              *)
+(*   DevBufio (named variant): the first frame is read through a buffered reader that is thrown   *)
+(* away - what the target sent right behind the frame is gone.                                    *)
+(*   Statistics backend (cloud control): Close() closes the connections, cancels the context and  *)
+(* then runs the clean-up handlers, the last traffic report among them (closerBusy until it       *)
+(* returns).  StatStall = the backend does not answer: the goroutine that closed stays in there,  *)
+(* the tunnel is forgotten once the backend answers again - but both ends have long seen the      *)
+(* closure.  Running the handlers BEFORE closing the connections (named variant DevCleanupFirst)  *)
+(* makes the closure itself wait for the backend.                                                 *)
+(*                                                                                                *)
 (* Configurations: Bridge_mc.cfg (as found, clauses in "or the named deviation happened" form),   *)
 (* Bridge_fixed.cfg (as the statement needs it, strict clauses), Bridge_live.cfg /                *)
 (* Bridge_live_fixed.cfg (liveness under weak fairness, as found / as needed), Bridge_gen.cfg     *)
@@ -96,6 +116,11 @@ CONSTANTS BUF,         \* copy buffer size (model scale, >= 3)
           DevSleepLimiter, \* TRUE: limiter waits cannot be cancelled by Close() (seeded variant); FALSE: WaitN(ctx)
           DevWriteLock,    \* TRUE: target->source writes hold sourceConnMu (seeded variant); FALSE: lookup only
           DevRouteFirst,   \* TRUE: routing cleanup first, return on its error (seeded variant); FALSE: map entry first
+          DevCleanupFirst, \* TRUE: Close() runs the clean-up handlers before it closes the connections (seeded variant)
+          DevLegRegistered,\* TRUE: the target's tunnel connection stays in the ClientRegistry (seeded variant)
+          DevBufio,        \* TRUE: cross-node first frame read through a discarded bufio.Reader (seeded variant)
+          AttachKinds,     \* ways of attaching the target explored: subset of {"local", "pkt", "xnode"}
+          HoldOn,          \* TRUE: tunnels that outlive the heartbeat timeout explored
           Gen,         \* TRUE: generation mode (history kept)
           Emit         \* TRUE: print behaviours
 
@@ -103,15 +128,18 @@ VARIABLES lim, tokens, paid,
           attached, endSt, avail, sent, delivered, rdOff, inflight, pc,
           armed, glitch, nfault, bridgeClosed, registered, nsend, ended,
           endMode, rdErr, stalled, routeFail,
+          akind, held, seenEOF, statStall, closerBusy,
           replaced, oldClosed, rdgen,
           devLimErr, devStale, lost, misorder, crashed, dropped,
           hist
 
 vars == <<lim, tokens, paid, attached, endSt, avail, sent, delivered, rdOff, inflight, pc,
-          armed, glitch, nfault, bridgeClosed, registered, nsend, ended, endMode, rdErr, stalled, routeFail, replaced, oldClosed, rdgen,
+          armed, glitch, nfault, bridgeClosed, registered, nsend, ended, endMode, rdErr, stalled, routeFail, akind, held, seenEOF, statStall, closerBusy,
+          replaced, oldClosed, rdgen,
           devLimErr, devStale, lost, misorder, crashed, dropped, hist>>
 view == <<lim, tokens, paid, attached, endSt, avail, sent, delivered, rdOff, inflight, pc,
-          armed, glitch, nfault, bridgeClosed, registered, nsend, ended, endMode, rdErr, stalled, routeFail, replaced, oldClosed, rdgen,
+          armed, glitch, nfault, bridgeClosed, registered, nsend, ended, endMode, rdErr, stalled, routeFail, akind, held, seenEOF, statStall, closerBusy,
+          replaced, oldClosed, rdgen,
           devLimErr, devStale, lost, misorder, crashed, dropped>>
 
 Ends  == {"S", "T"}
@@ -146,6 +174,7 @@ Init == /\ lim \in Lims /\ tokens = Burst(lim) /\ paid = [d \in Dirs |-> 0]
         /\ armed = [e \in Ends |-> FALSE] /\ glitch = [e \in Ends |-> "no"] /\ nfault = 0
         /\ endMode = [e \in Ends |-> "plain"] /\ rdErr = [d \in Dirs |-> "none"]
         /\ stalled = [e \in Ends |-> FALSE] /\ routeFail = FALSE
+        /\ akind = "none" /\ held = FALSE /\ seenEOF = [e \in Ends |-> FALSE] /\ statStall = FALSE /\ closerBusy = FALSE
         /\ bridgeClosed = FALSE /\ registered = TRUE /\ nsend = 0 /\ ended = "none"
         /\ replaced = FALSE /\ oldClosed = FALSE /\ rdgen = 1
         /\ devLimErr = FALSE /\ devStale = FALSE /\ lost = [d \in Dirs |-> 0] /\ misorder = FALSE /\ crashed = FALSE /\ dropped = 0
@@ -160,6 +189,7 @@ LimU   == UNCHANGED <<lim, tokens, paid>>
 CopU   == UNCHANGED <<sent, delivered, rdOff, inflight, pc, rdgen, rdErr>>
 FaultU == UNCHANGED <<armed, glitch, nfault, stalled, routeFail>>
 RepU   == UNCHANGED <<replaced, oldClosed>>
+XU     == UNCHANGED <<akind, held, seenEOF, statStall, closerBusy>>
 DevU   == UNCHANGED <<devLimErr, devStale, lost, misorder, crashed, dropped>>
 
 \* ---- environment: the two clients, the target's arrival, third parties --------------------------
@@ -172,18 +202,29 @@ Send(e, c) ==
   /\ H([a |-> "send", e |-> e, c |-> c])
   /\ LimU /\ FaultU /\ RepU /\ DevU
   /\ UNCHANGED <<attached, endSt, delivered, rdOff, inflight, pc, rdgen, bridgeClosed, registered, ended, endMode, rdErr>>
+  /\ XU
 
 \* SetTargetConnection: close(ready); Start() leaves its select and launches the two copiers; the s2t
 \* goroutine loads the source forwarder that is current at that moment (a replacement that slips in
 \* between close(ready) and that load is, for the copier, a replacement before the attach)
-Attach ==
-  /\ ~attached /\ registered /\ ~bridgeClosed
-  /\ attached' = TRUE
-  /\ pc' = [d \in Dirs |-> IF d = "t2s" THEN "start" ELSE "read"]
+Attach(k) ==
+  /\ k \in AttachKinds /\ ~attached /\ registered /\ ~bridgeClosed
+  /\ (k = "xnode" => ~replaced)
+  /\ attached' = TRUE /\ akind' = k
+  \* local / pkt: Bridge.Start launches its copiers (the t2s goroutine still has to start running);
+  \* xnode: runBridgeForward's two io.Copy loops
+  /\ pc' = [d \in Dirs |-> IF d = "t2s" /\ k # "xnode" THEN "start" ELSE "read"]
   /\ rdgen' = IF replaced THEN 2 ELSE 1
-  /\ H([a |-> "attach"])
-  /\ LimU /\ FaultU /\ RepU /\ DevU
-  /\ UNCHANGED <<endSt, avail, sent, delivered, rdOff, inflight, bridgeClosed, registered, nsend, ended, endMode, rdErr>>
+  /\ IF k = "xnode" /\ DevBufio /\ avail["t"] # <<>>
+     THEN \* DEVIATION: the discarded buffered reader has swallowed what came right behind the frame
+          /\ avail' = [avail EXCEPT !["t"] = IF Head(@) > 1 THEN <<Head(@) - 1>> \o Tail(@) ELSE Tail(@)]
+          /\ rdOff' = [rdOff EXCEPT !["t2s"] = @ + 1]
+          /\ lost' = [lost EXCEPT !["t2s"] = @ + 1]
+     ELSE UNCHANGED <<avail, rdOff, lost>>
+  /\ H([a |-> "attach", k |-> k])
+  /\ LimU /\ FaultU /\ RepU
+  /\ UNCHANGED <<endSt, sent, delivered, inflight, bridgeClosed, registered, nsend, ended, endMode, rdErr,
+                 held, seenEOF, statStall, closerBusy, devLimErr, devStale, misorder, crashed, dropped>>
 
 \* an end may only end the tunnel under the "slow" limit when nothing of its own is still being paced
 \* out (generation only): closure then has to come at once, not after 30 s of legitimate pacing
@@ -200,6 +241,7 @@ CloseEnd(e, w) ==
   /\ H([a |-> "close", e |-> e, w |-> w])
   /\ LimU /\ CopU /\ FaultU /\ RepU /\ DevU
   /\ UNCHANGED <<attached, avail, bridgeClosed, registered, nsend>>
+  /\ XU
 
 \* an end's connection fails (reset): unread bytes are gone, reads and writes fail;
 \* w = "data": the failing read still returns what it had in hand (one buffer-full at most) with the error
@@ -213,6 +255,7 @@ ErrorEnd(e, w) ==
   /\ H([a |-> "error", e |-> e, w |-> w])
   /\ LimU /\ CopU /\ FaultU /\ RepU /\ DevU
   /\ UNCHANGED <<attached, bridgeClosed, registered, nsend>>
+  /\ XU
 
 \* the next Write to end e accepts only part of the chunk and returns an error
 Arm(e) ==
@@ -221,6 +264,7 @@ Arm(e) ==
   /\ H([a |-> "arm", e |-> e])
   /\ LimU /\ CopU /\ RepU /\ DevU
   /\ UNCHANGED <<attached, endSt, avail, bridgeClosed, registered, nsend, ended, endMode>>
+  /\ XU
 
 \* k = "t0": the next Read on end e's connection returns (0, temporary timeout) - retried by the loop;
 \* k = "tn": the next Read that has bytes returns them TOGETHER WITH a temporary timeout
@@ -230,6 +274,7 @@ Glitch(e, k) ==
   /\ H([a |-> "glitch", e |-> e, k |-> k])
   /\ LimU /\ CopU /\ RepU /\ DevU
   /\ UNCHANGED <<attached, endSt, avail, bridgeClosed, registered, nsend, ended, endMode>>
+  /\ XU
 
 \* end e stops draining what the bridge writes to it (back-pressure) / drains again
 Stall(e) ==
@@ -238,12 +283,15 @@ Stall(e) ==
   /\ H([a |-> "stall", e |-> e])
   /\ LimU /\ CopU /\ RepU /\ DevU
   /\ UNCHANGED <<attached, endSt, avail, bridgeClosed, registered, nsend, ended, endMode, armed, glitch, routeFail>>
+  /\ XU
 Unstall(e) ==
   /\ stalled[e] /\ endSt[e] = "open" /\ ~bridgeClosed
   /\ stalled' = [stalled EXCEPT ![e] = FALSE]
   /\ H([a |-> "unstall", e |-> e])
   /\ LimU /\ CopU /\ RepU /\ DevU
   /\ UNCHANGED <<attached, endSt, avail, bridgeClosed, registered, nsend, ended, endMode, armed, glitch, nfault, routeFail>>
+  /\ XU
+  /\ XU
 
 \* the routing table's storage starts failing deletes (shared store unreachable)
 RouteFail ==
@@ -252,10 +300,12 @@ RouteFail ==
   /\ H([a |-> "routefail"])
   /\ LimU /\ CopU /\ RepU /\ DevU
   /\ UNCHANGED <<attached, endSt, avail, bridgeClosed, registered, nsend, ended, endMode, armed, glitch, stalled>>
+  /\ XU
 
 \* the source client re-opens the tunnel on a new connection (handleExistingBridge)
 ReplaceSource ==
   /\ Replace /\ ~replaced /\ ended = "none" /\ endSt["S"] = "open" /\ registered /\ ~bridgeClosed
+  /\ akind # "xnode"                \* (runBridgeForward works on the forwarder it found when it started)
   /\ replaced' = TRUE
   /\ IF DevStaleSrc
      THEN UNCHANGED <<oldClosed, avail, dropped>>
@@ -266,6 +316,7 @@ ReplaceSource ==
   /\ H([a |-> "replace"])
   /\ LimU /\ CopU /\ FaultU
   /\ UNCHANGED <<attached, endSt, bridgeClosed, registered, nsend, ended, endMode, devLimErr, devStale, lost, misorder, crashed>>
+  /\ XU
 
 \* the replaced connection finally ends (the client or the network closes it)
 CloseOld ==
@@ -274,6 +325,7 @@ CloseOld ==
   /\ H([a |-> "closeold"])
   /\ LimU /\ CopU /\ FaultU /\ DevU
   /\ UNCHANGED <<attached, endSt, avail, bridgeClosed, registered, nsend, ended, endMode>>
+  /\ XU
 
 \* ---- the bridge ------------------------------------------------------------------------------
 \* CopyWithControl of direction d returned.  The s2t goroutine re-enters it when the source
@@ -299,21 +351,28 @@ Enter(d) ==
   /\ LimU /\ FaultU /\ RepU
   /\ UNCHANGED <<attached, endSt, avail, sent, delivered, rdOff, inflight, rdgen, bridgeClosed, nsend, ended,
                  endMode, rdErr, devLimErr, devStale, lost, misorder, dropped>>
+  \* xnode: a direction that has finished half-closes its destination (CloseWrite): that end sees EOF
+  /\ seenEOF' = IF akind = "xnode" /\ pc'[d] = "done" /\ pc[d] # "done" THEN [seenEOF EXCEPT ![Dst(d)] = TRUE] ELSE seenEOF
+  /\ UNCHANGED <<akind, held, statStall, closerBusy>>
+
+\* the sweeper has closed the stream of the target leg it took for a silent control connection
+Swept == held /\ DevLegRegistered /\ akind = "pkt"
+Cut(d) == bridgeClosed \/ (d = "t2s" /\ Swept)       \* the connection direction d reads from was closed under it
 
 \* src.Read(buf)
 Read(d) ==
   /\ pc[d] = "read"
   /\ LET ch == RdChan(d) src == Src(d) IN
      \/ \* the bridge closed this connection: Read fails
-        /\ bridgeClosed /\ ~OnOld(d)
+        /\ Cut(d) /\ ~OnOld(d)
         /\ ExitCopy(d) /\ UNCHANGED <<avail, rdOff, inflight, glitch, rdErr>>
      \/ \* transient timeout without bytes: `continue`
-        /\ ~bridgeClosed /\ ~OnOld(d) /\ glitch[src] = "t0"
+        /\ ~Cut(d) /\ ~OnOld(d) /\ glitch[src] = "t0"
         /\ glitch' = [glitch EXCEPT ![src] = "no"]
         /\ UNCHANGED <<avail, rdOff, inflight, pc, rdgen, rdErr>>
      \/ \* data: one buffer-full at most, never across the end's write boundaries - possibly together
         \* with a temporary timeout, with io.EOF (last bytes of a closed end) or with the connection error
-        /\ (bridgeClosed => OnOld(d)) /\ (OnOld(d) \/ glitch[src] # "t0")
+        /\ (Cut(d) => OnOld(d)) /\ (OnOld(d) \/ glitch[src] # "t0")
         /\ avail[ch] # <<>> /\ (OnOld(d) \/ endSt[src] # "failed" \/ endMode[src] = "data")
         /\ LET n    == Min(BUF, Head(avail[ch]))
                last == Len(avail[ch]) = 1 /\ Head(avail[ch]) <= BUF
@@ -327,16 +386,19 @@ Read(d) ==
            /\ avail' = [avail EXCEPT ![ch] = IF Head(@) > n THEN <<Head(@) - n>> \o Tail(@) ELSE Tail(@)]
            /\ rdErr' = [rdErr EXCEPT ![d] = with]
            /\ glitch' = IF ~OnOld(d) /\ glitch[src] = "tn" /\ with = "none" THEN [glitch EXCEPT ![src] = "no"] ELSE glitch
-           /\ pc' = [pc EXCEPT ![d] = IF lim = "none" THEN "write" ELSE "limit"]
+           /\ pc' = [pc EXCEPT ![d] = IF lim = "none" \/ akind = "xnode" THEN "write" ELSE "limit"]
         /\ UNCHANGED <<rdgen>>
      \/ \* end of stream / read error without bytes
-        /\ (bridgeClosed => OnOld(d)) /\ (OnOld(d) \/ glitch[src] # "t0")
+        /\ (Cut(d) => OnOld(d)) /\ (OnOld(d) \/ glitch[src] # "t0")
         /\ IF OnOld(d) THEN avail[ch] = <<>> /\ oldClosed
            ELSE avail[ch] = <<>> /\ endSt[src] \in {"closed", "failed"}
         /\ ExitCopy(d) /\ UNCHANGED <<avail, rdOff, inflight, glitch, rdErr>>
   /\ H([a |-> "R", d |-> d])
   /\ UNCHANGED <<lim, tokens, paid, attached, endSt, sent, delivered, armed, nfault, stalled, routeFail, bridgeClosed, registered,
                  nsend, ended, endMode>> /\ RepU /\ DevU
+  \* xnode: a direction that has finished half-closes its destination (CloseWrite): that end sees EOF
+  /\ seenEOF' = IF akind = "xnode" /\ pc'[d] = "done" /\ pc[d] # "done" THEN [seenEOF EXCEPT ![Dst(d)] = TRUE] ELSE seenEOF
+  /\ UNCHANGED <<akind, held, statStall, closerBusy>>
 
 \* rateLimiter.WaitN(ctx, n)
 Limit(d) ==
@@ -368,6 +430,9 @@ Limit(d) ==
   /\ NoH
   /\ UNCHANGED <<lim, attached, endSt, avail, sent, delivered, rdOff, bridgeClosed, registered, nsend, ended, endMode,
                  devStale, misorder, crashed, dropped>> /\ FaultU /\ RepU
+  \* xnode: a direction that has finished half-closes its destination (CloseWrite): that end sees EOF
+  /\ seenEOF' = IF akind = "xnode" /\ pc'[d] = "done" /\ pc[d] # "done" THEN [seenEOF EXCEPT ![Dst(d)] = TRUE] ELSE seenEOF
+  /\ UNCHANGED <<akind, held, statStall, closerBusy>>
 
 \* time passes: the bucket refills (only interesting while a copier waits)
 Refill ==
@@ -376,17 +441,18 @@ Refill ==
   /\ NoH
   /\ UNCHANGED <<lim, paid, attached, endSt, avail, bridgeClosed, registered, nsend, ended, endMode>>
   /\ CopU /\ FaultU /\ RepU /\ DevU
+  /\ XU
 
 \* dst.Write(buf[:n])
 Write(d) ==
   /\ pc[d] = "write"
   /\ LET dst == Dst(d) n == inflight[d] IN
      \/ \* destination gone (closed by the bridge, or the end closed / failed): error, chunk dropped
-        /\ bridgeClosed \/ endSt[dst] # "open"
+        /\ bridgeClosed \/ endSt[dst] # "open" \/ (d = "s2t" /\ Swept)
         /\ Drop(d) /\ ExitCopy(d)
         /\ UNCHANGED <<delivered, endSt, armed, ended, misorder>>
      \/ \* short write with error: part of the chunk is taken, the connection is then broken
-        /\ ~bridgeClosed /\ endSt[dst] = "open" /\ armed[dst] /\ ~stalled[dst]
+        /\ ~bridgeClosed /\ endSt[dst] = "open" /\ armed[dst] /\ ~stalled[dst] /\ ~(d = "s2t" /\ Swept)
         /\ LET k == n \div 2 IN
            /\ delivered' = [delivered EXCEPT ![d] = @ + k]
            /\ misorder' = (misorder \/ rdOff[d] - n # delivered[d])
@@ -396,7 +462,7 @@ Write(d) ==
         /\ armed' = [armed EXCEPT ![dst] = FALSE]
         /\ ended' = IF ended = "none" THEN "error" ELSE ended
         /\ ExitCopy(d)
-     \/ /\ ~bridgeClosed /\ endSt[dst] = "open" /\ ~armed[dst] /\ ~stalled[dst]    \* (parked while the end does not drain)
+     \/ /\ ~bridgeClosed /\ endSt[dst] = "open" /\ ~armed[dst] /\ ~stalled[dst] /\ ~(d = "s2t" /\ Swept)    \* (parked while the end does not drain)
         /\ delivered' = [delivered EXCEPT ![d] = @ + n]
         /\ misorder' = (misorder \/ rdOff[d] - n # delivered[d])
         /\ inflight' = [inflight EXCEPT ![d] = 0]
@@ -407,30 +473,39 @@ Write(d) ==
   /\ H([a |-> "W", d |-> d])
   /\ UNCHANGED <<lim, tokens, paid, attached, avail, sent, rdOff, glitch, nfault, stalled, routeFail, bridgeClosed, registered, nsend, endMode,
                  devLimErr, devStale, crashed, dropped>> /\ RepU
+  \* xnode: a direction that has finished half-closes its destination (CloseWrite): that end sees EOF
+  /\ seenEOF' = IF akind = "xnode" /\ pc'[d] = "done" /\ pc[d] # "done" THEN [seenEOF EXCEPT ![Dst(d)] = TRUE] ELSE seenEOF
+  /\ UNCHANGED <<akind, held, statStall, closerBusy>>
 
 \* closeBridge(): the first copier goroutine that ends runs Bridge.Close() - the current source
 \* and target connections are closed (both ends observe closure), then the context is cancelled
 \* (seeded variant: Close() needs sourceConnMu, which a t2s Write parked on a non-draining source holds)
 LockHeld == DevWriteLock /\ pc["t2s"] = "write" /\ stalled["S"] /\ endSt["S"] = "open"
+\* the last traffic report talks to the statistics backend when there is something to report
+Traffic == delivered["s2t"] + delivered["t2s"] > 0
+\* (seeded variant: the handlers run first - while the backend does not answer nothing gets closed)
+BackendFirst == DevCleanupFirst /\ statStall /\ Traffic
 CloseBridge ==
-  /\ ~bridgeClosed /\ ~LockHeld /\ \E d \in Dirs : pc[d] = "done"
-  /\ bridgeClosed' = TRUE
+  /\ ~bridgeClosed /\ ~LockHeld /\ ~BackendFirst
+  /\ IF akind = "xnode" THEN \A d \in Dirs : pc[d] = "done" ELSE \E d \in Dirs : pc[d] = "done"
+  /\ bridgeClosed' = TRUE /\ closerBusy' = TRUE          \* connections closed, context cancelled; now the handlers
   /\ NoH
   /\ LimU /\ CopU /\ FaultU /\ RepU /\ DevU
-  /\ UNCHANGED <<attached, endSt, avail, registered, nsend, ended, endMode>>
+  /\ UNCHANGED <<attached, endSt, avail, registered, nsend, ended, endMode, akind, held, seenEOF, statStall>>
 
 \* Bridge.Close() called by someone else (server shutdown, quota enforcement)
 ExtClose ==
-  /\ ExtCloseOn /\ ~bridgeClosed /\ ~LockHeld /\ registered /\ ended = "none"
-  /\ bridgeClosed' = TRUE /\ ended' = "bridge"
+  /\ ExtCloseOn /\ ~bridgeClosed /\ ~LockHeld /\ ~BackendFirst /\ registered /\ ended = "none"
+  /\ bridgeClosed' = TRUE /\ ended' = "bridge" /\ closerBusy' = TRUE
   /\ H([a |-> "extclose"])
   /\ LimU /\ CopU /\ FaultU /\ RepU /\ DevU
-  /\ UNCHANGED <<attached, endSt, avail, registered, nsend, endMode>>
+  /\ UNCHANGED <<attached, endSt, avail, registered, nsend, endMode, akind, held, seenEOF, statStall>>
 
 \* wg.Wait() returned (or Start failed before the target came): runBridgeLifecycle deletes the map entry
 Unregister ==
   /\ registered
-  /\ \/ attached /\ \A d \in Dirs : pc[d] = "done"
+  \* (the goroutine that ran Close() is one of the two Start waits for: it must be out of the handlers)
+  /\ \/ attached /\ ~closerBusy /\ \A d \in Dirs : pc[d] = "done"
      \/ ~attached /\ bridgeClosed                       \* "bridge cancelled before target connection"
   \* delete(tunnelBridges, id), then the routing entry (its storage error is ignored);
   \* seeded variant: routing entry first, `return` on its error - the map entry stays
@@ -440,6 +515,7 @@ Unregister ==
   /\ NoH
   /\ LimU /\ CopU /\ FaultU /\ RepU /\ DevU
   /\ UNCHANGED <<attached, endSt, avail, nsend, ended, endMode>>
+  /\ XU
 
 \* the 30 s timer of Start fires before a target was attached
 ReadyTimeout ==
@@ -448,6 +524,7 @@ ReadyTimeout ==
   /\ H([a |-> "timeout"])
   /\ LimU /\ CopU /\ FaultU /\ RepU /\ DevU
   /\ UNCHANGED <<attached, endSt, avail, nsend, ended, endMode>>
+  /\ XU
 
 \* ghost: the s2t goroutine is parked in Read on the replaced connection while the tunnel is over
 MarkStale ==
@@ -456,23 +533,63 @@ MarkStale ==
   /\ NoH
   /\ LimU /\ CopU /\ FaultU /\ RepU
   /\ UNCHANGED <<attached, endSt, avail, bridgeClosed, registered, nsend, ended, devLimErr, lost, misorder, crashed, dropped, endMode>>
+  /\ XU
+
+\* the clean-up handlers of Close() return (the traffic report needs the statistics backend)
+CleanupDone ==
+  /\ closerBusy /\ ~(statStall /\ Traffic)
+  /\ closerBusy' = FALSE
+  /\ NoH
+  /\ LimU /\ CopU /\ FaultU /\ RepU /\ DevU
+  /\ UNCHANGED <<attached, endSt, avail, bridgeClosed, registered, nsend, ended, endMode, akind, held, seenEOF, statStall>>
+
+\* the statistics backend stops answering / answers again
+StatStall ==
+  /\ Faults /\ nfault = 0 /\ registered /\ ~bridgeClosed /\ ~statStall /\ ended = "none"
+  /\ statStall' = TRUE /\ nfault' = 1
+  /\ H([a |-> "statstall"])
+  /\ LimU /\ CopU /\ RepU /\ DevU
+  /\ UNCHANGED <<attached, endSt, avail, bridgeClosed, registered, nsend, ended, endMode, armed, glitch, stalled, routeFail,
+                 akind, held, seenEOF, closerBusy>>
+StatResume ==
+  /\ statStall
+  /\ statStall' = FALSE
+  /\ H([a |-> "statresume"])
+  /\ LimU /\ CopU /\ FaultU /\ RepU /\ DevU
+  /\ UNCHANGED <<attached, endSt, avail, bridgeClosed, registered, nsend, ended, endMode, akind, held, seenEOF, closerBusy>>
+
+\* the tunnel outlives the heartbeat timeout (and a sweep of the stale-connection cleaner)
+Hold ==
+  /\ HoldOn /\ attached /\ ~held /\ ended = "none" /\ ~bridgeClosed /\ registered
+  /\ held' = TRUE
+  /\ H([a |-> "hold"])
+  /\ LimU /\ CopU /\ FaultU /\ RepU /\ DevU
+  /\ UNCHANGED <<attached, endSt, avail, bridgeClosed, registered, nsend, ended, endMode, akind, seenEOF, statStall, closerBusy>>
+
+\* xnode: an end that has seen end-of-stream closes its connection (the peer node's forwarder, a client)
+React(e) ==
+  /\ akind = "xnode" /\ seenEOF[e] /\ endSt[e] = "open" /\ ~bridgeClosed
+  /\ endSt' = [endSt EXCEPT ![e] = "closed"]
+  /\ NoH
+  /\ LimU /\ CopU /\ FaultU /\ RepU /\ DevU
+  /\ UNCHANGED <<attached, avail, bridgeClosed, registered, nsend, ended, endMode>> /\ XU
 
 Copier(d) == Enter(d) \/ Read(d) \/ Limit(d) \/ Write(d)
 Env == \/ \E e \in Ends : \E c \in Classes : Send(e, c)
-       \/ Attach
+       \/ \E k \in AttachKinds : Attach(k)
        \/ \E e \in Ends : \/ \E w \in {"plain", "data"} : CloseEnd(e, w) \/ ErrorEnd(e, w)
                           \/ Arm(e) \/ \E k \in {"t0", "tn"} : Glitch(e, k)
                           \/ Stall(e) \/ Unstall(e)
-       \/ RouteFail
+       \/ RouteFail \/ StatStall \/ StatResume \/ Hold
        \/ ReplaceSource \/ CloseOld \/ ExtClose
-Sys == (\E d \in Dirs : Copier(d)) \/ Refill \/ CloseBridge \/ Unregister \/ ReadyTimeout \/ MarkStale
+Sys == (\E d \in Dirs : Copier(d)) \/ Refill \/ CleanupDone \/ (\E e \in Ends : React(e)) \/ CloseBridge \/ Unregister \/ ReadyTimeout \/ MarkStale
 Next == Env \/ Sys
 Spec == Init /\ [][Next]_vars
 
 \* weak fairness on the copiers, the clock, Close and the lifecycle goroutine - not on the environment
 Fair == /\ \A d \in Dirs : WF_vars(Copier(d))
         /\ WF_vars(Refill /\ ~bridgeClosed)        \* once the bridge is closed nothing may wait for the pacing clock
-        /\ WF_vars(CloseBridge) /\ WF_vars(Unregister) /\ WF_vars(ReadyTimeout) /\ WF_vars(MarkStale)
+        /\ WF_vars(CloseBridge) /\ WF_vars(CleanupDone) /\ \A e \in Ends : WF_vars(React(e)) /\ WF_vars(Unregister) /\ WF_vars(ReadyTimeout) /\ WF_vars(MarkStale)
 LiveSpec == Spec /\ Fair
 
 \* ---- properties (statement of C02) ------------------------------------------------------------
@@ -481,7 +598,8 @@ TypeOK == /\ lim \in Lims /\ tokens \in 0..BUF /\ attached \in BOOLEAN /\ bridge
                              /\ inflight[d] \in 0..BUF /\ paid[d] \in 0..BUF
           /\ \A e \in Ends : endSt[e] \in {"open", "closed", "failed"} /\ glitch[e] \in {"no", "t0", "tn"} /\ endMode[e] \in {"plain", "data"}
           /\ \A d \in Dirs : rdErr[d] \in {"none", "eof", "err"}
-          /\ \A e \in Ends : stalled[e] \in BOOLEAN
+          /\ \A e \in Ends : stalled[e] \in BOOLEAN /\ seenEOF[e] \in BOOLEAN
+          /\ akind \in {"none", "local", "pkt", "xnode"} /\ held \in BOOLEAN /\ statStall \in BOOLEAN /\ closerBusy \in BOOLEAN
           /\ rdgen \in {1, 2} /\ ended \in {"none", "close", "error", "bridge"}
 
 \* what an end has received is a prefix of what the other end sent: every chunk is written at the
@@ -526,10 +644,12 @@ NoCrash == ~crashed
 \* a copier is parked writing to an end that does not drain and no copier has noticed anything yet:
 \* the bridge has had no occasion to see the other end go (nothing is demanded before it has)
 Unnoticed == (\E d \in Dirs : pc[d] = "write" /\ stalled[Dst(d)]) /\ \A d \in Dirs : pc[d] # "done"
-ClosureSeen      == \A e \in Ends : (attached /\ endSt[e] # "open") ~> (bridgeClosed \/ Unnoticed)
-Forgotten        == (attached /\ ended # "none") ~> (~registered \/ Unnoticed)
-ClosureSeenKnown == \A e \in Ends : (attached /\ endSt[e] # "open") ~> (bridgeClosed \/ Unnoticed \/ (replaced /\ ~oldClosed))
-ForgottenKnown   == (attached /\ ended # "none") ~> (~registered \/ Unnoticed \/ crashed \/ devStale \/ (replaced /\ ~oldClosed))
+\* (xnode: the other end sees end-of-stream through the half-close; a statistics backend that does not
+\* answer may delay the forgetting, never the closure)
+ClosureSeen      == \A e \in Ends : (attached /\ endSt[e] # "open") ~> (bridgeClosed \/ seenEOF[Other(e)] \/ Unnoticed)
+Forgotten        == (attached /\ ended # "none") ~> (~registered \/ Unnoticed \/ statStall)
+ClosureSeenKnown == \A e \in Ends : (attached /\ endSt[e] # "open") ~> (bridgeClosed \/ seenEOF[Other(e)] \/ Unnoticed \/ (replaced /\ ~oldClosed))
+ForgottenKnown   == (attached /\ ended # "none") ~> (~registered \/ Unnoticed \/ statStall \/ crashed \/ devStale \/ (replaced /\ ~oldClosed))
 \* a tunnel whose target never comes is forgotten as well (30 s timer)
 NeverAttached == (~attached) ~> (attached \/ ~registered)
 \* bytes sent while both ends stay open are eventually delivered: the copiers always catch up again
